@@ -70,6 +70,7 @@ const (
 	ResumeFailed
 	ResumeUnexpected
 	ResumeClose
+	ResumeUnreadable // a well-formed element the stream parser itself rejects (scr.ResumeAlt picks which)
 )
 
 const (
@@ -113,6 +114,7 @@ type NegScript struct {
 	Session    int      `json:"session"`
 	SM         bool     `json:"sm"`
 	Resume     int      `json:"resume_reply"`
+	ResumeAlt  int      `json:"resume_reply_variant,omitempty"`
 	Bind       int      `json:"bind_reply"`
 	SessionRep int      `json:"session_reply"`
 	Enable     int      `json:"enable_reply"`
@@ -123,6 +125,16 @@ type NegScript struct {
 	DelayMs    int      `json:"reply_delay_ms"`
 	StreamID   string   `json:"stream_id"`
 	AutoAckR   bool     `json:"auto_ack"` // answer <r/> like a real server
+}
+
+// ResumeUnreadableReplies are answers to <resume/> that are neither <resumed/> nor <failed/> of
+// urn:xmpp:sm:3 and that stanza.NextPacket reports as an error rather than as a packet.
+var ResumeUnreadableReplies = []string{
+	"<failed xmlns='urn:xmpp:sm:2'/>",
+	"<challenge xmlns='" + nsSASL + "'>Zm9v</challenge>",
+	"<resume-later xmlns='" + nsSM + "'/>",
+	"<resumed xmlns='urn:xmpp:sm:2' previd='sm-1' h='0'/>",
+	"<ping xmlns='urn:xmpp:ping'/>",
 }
 
 func DefaultNeg() NegScript {
@@ -360,6 +372,10 @@ func (sc *SrvConn) features() string {
 		case SessMandatory:
 			b.WriteString(sc.sep() + "<session xmlns='" + nsSession + "'/>")
 		}
+		if scr.ExtraFeats {
+			// both XEP-0198 versions, the way ejabberd and Prosody advertise them
+			b.WriteString(sc.sep() + "<sm xmlns='urn:xmpp:sm:2'/>")
+		}
 		if scr.SM {
 			b.WriteString(sc.sep() + "<sm xmlns='" + nsSM + "'/>")
 		}
@@ -514,6 +530,8 @@ func (sc *SrvConn) handle(it *Item) {
 			sc.Send("<message xmlns='jabber:client'><body>what?</body></message>")
 		case ResumeClose:
 			sc.Close()
+		case ResumeUnreadable:
+			sc.Send(ResumeUnreadableReplies[scr.ResumeAlt%len(ResumeUnreadableReplies)])
 		}
 	case el.Is(nsSM, "enable"):
 		sc.delay()
